@@ -215,14 +215,14 @@ Lemma is_RInt_Chasles_R (f : R -> R) a b c l1 l2 :
 Proof. exact (is_RInt_Chasles f a b c l1 l2). Qed.
 
 (* ---- degree 0: rectangle ---------------------------------------------- *)
-Lemma Abel_rect x c : 0 <= x -> 0 <= c ->
-  Abel (rect c) (c + 1 / 2) x = 2 * (ylos x (c + 1 / 2) - ylos x (c - 1 / 2)).
+Lemma rect_is_RInt x c : 0 <= x -> 0 <= c ->
+  is_RInt (fun y => rect c (sqrt (x * x + y * y))) 0 (ylos x (c + 1 / 2))
+          (ylos x (c + 1 / 2) - ylos x (c - 1 / 2)).
 Proof.
-  intros Hx Hc. unfold Abel. rewrite abel_upper by lra.
+  intros Hx Hc.
   set (y1 := ylos x (c - 1 / 2)). set (y2 := ylos x (c + 1 / 2)).
   assert (H01 : 0 <= y1) by apply ylos_nonneg.
   assert (H12 : y1 <= y2) by (apply ylos_mono; lra).
-  f_equal. apply is_RInt_unique.
   replace (y2 - y1) with ((y1 - 0) * 0 + (y2 - y1) * 1) by ring.
   apply (is_RInt_Chasles_R _ 0 y1 y2).
   - apply is_RInt_const_ext; [lra|]. intros y Hy.
@@ -234,6 +234,13 @@ Proof.
     pose proof (Rmax_l (c - 1 / 2) x).
     unfold rect. destruct (Rle_dec (c - 1 / 2) (sqrt (x * x + y * y))); [|lra].
     destruct (Rlt_dec (sqrt (x * x + y * y)) (c + 1 / 2)); [reflexivity|lra].
+Qed.
+
+Lemma Abel_rect x c : 0 <= x -> 0 <= c ->
+  Abel (rect c) (c + 1 / 2) x = 2 * (ylos x (c + 1 / 2) - ylos x (c - 1 / 2)).
+Proof.
+  intros Hx Hc. unfold Abel. rewrite abel_upper by lra.
+  f_equal. apply is_RInt_unique. apply rect_is_RInt; auto.
 Qed.
 
 (* ---- degree 1: triangle ----------------------------------------------- *)
@@ -260,29 +267,52 @@ Proof. intros; unfold tri; rewrite Rabs_pos_eq by lra; rewrite pos_nonneg; lra. 
 Lemma tri_above c s : c + 1 <= s -> tri c s = 0.
 Proof. intros; unfold tri; rewrite Rabs_pos_eq by lra; apply pos_nonpos; lra. Qed.
 
+Definition tri_RInt_value (x c : R) : R :=
+  ((ylos x (c - 1) - 0) * 0
+   + ((ylos x c - ylos x (c - 1)) * (1 - c) + 1 * (Gh x (ylos x c) - Gh x (ylos x (c - 1)))))
+  + ((ylos x (c + 1) - ylos x c) * (1 + c) + (-1) * (Gh x (ylos x (c + 1)) - Gh x (ylos x c))).
+
+Lemma tri_is_RInt x c : 0 <= x -> 0 <= c ->
+  is_RInt (fun y => tri c (sqrt (x * x + y * y))) 0 (ylos x (c + 1)) (tri_RInt_value x c).
+Proof.
+  intros Hx Hc. unfold tri_RInt_value.
+  pose proof (ylos_nonneg x (c - 1)) as H0.
+  pose proof (ylos_mono x (c - 1) c Hx ltac:(lra)) as H1.
+  pose proof (ylos_mono x c (c + 1) Hx ltac:(lra)) as H2.
+  apply (is_RInt_Chasles_R _ 0 (ylos x c) (ylos x (c + 1))).
+  apply (is_RInt_Chasles_R _ 0 (ylos x (c - 1)) (ylos x c)).
+  - apply is_RInt_const_ext; [lra|]. intros y Hy. apply tri_below.
+    assert (sqrt (x * x + y * y) < c - 1) by (apply hyp_lt_ylos; lra). lra.
+  - apply is_RInt_lin_piece; try lra. intros y Hy. apply tri_rise.
+    assert (sqrt (x * x + y * y) < c) by (apply hyp_lt_ylos; lra).
+    assert (Rmax (c - 1) x < sqrt (x * x + y * y)) by (apply hyp_gt_ylos; lra).
+    pose proof (Rmax_l (c - 1) x). lra.
+  - apply is_RInt_lin_piece; try lra. intros y Hy. apply tri_fall.
+    assert (sqrt (x * x + y * y) < c + 1) by (apply hyp_lt_ylos; lra).
+    assert (Rmax c x < sqrt (x * x + y * y)) by (apply hyp_gt_ylos; lra).
+    pose proof (Rmax_l c x). lra.
+Qed.
+
 Lemma Abel_tri x c : 0 <= x -> 0 <= c ->
   Abel (tri c) (c + 1) x = Pt (c + 1) x - 2 * Pt c x + Pt (c - 1) x.
 Proof.
   intros Hx Hc. unfold Abel. rewrite abel_upper by lra.
   rewrite <- !Pt_Gh by auto.
-  pose proof (ylos_nonneg x (c - 1)) as H0.
-  pose proof (ylos_mono x (c - 1) c Hx ltac:(lra)) as H1.
-  pose proof (ylos_mono x c (c + 1) Hx ltac:(lra)) as H2.
-  assert (HI : is_RInt (fun y => tri c (sqrt (x * x + y * y))) 0 (ylos x (c + 1))
-     (((ylos x (c - 1) - 0) * 0
-       + ((ylos x c - ylos x (c - 1)) * (1 - c) + 1 * (Gh x (ylos x c) - Gh x (ylos x (c - 1)))))
-      + ((ylos x (c + 1) - ylos x c) * (1 + c) + (-1) * (Gh x (ylos x (c + 1)) - Gh x (ylos x c))))).
-  { apply (is_RInt_Chasles_R _ 0 (ylos x c) (ylos x (c + 1))).
-    apply (is_RInt_Chasles_R _ 0 (ylos x (c - 1)) (ylos x c)).
-    - apply is_RInt_const_ext; [lra|]. intros y Hy. apply tri_below.
-      assert (sqrt (x * x + y * y) < c - 1) by (apply hyp_lt_ylos; lra). lra.
-    - apply is_RInt_lin_piece; try lra. intros y Hy. apply tri_rise.
-      assert (sqrt (x * x + y * y) < c) by (apply hyp_lt_ylos; lra).
-      assert (Rmax (c - 1) x < sqrt (x * x + y * y)) by (apply hyp_gt_ylos; lra).
-      pose proof (Rmax_l (c - 1) x). lra.
-    - apply is_RInt_lin_piece; try lra. intros y Hy. apply tri_fall.
-      assert (sqrt (x * x + y * y) < c + 1) by (apply hyp_lt_ylos; lra).
-      assert (Rmax c x < sqrt (x * x + y * y)) by (apply hyp_gt_ylos; lra).
-      pose proof (Rmax_l c x). lra. }
-  rewrite (is_RInt_unique _ _ _ _ HI). ring.
+  rewrite (is_RInt_unique _ _ _ _ (tri_is_RInt x c Hx Hc)). unfold tri_RInt_value. ring.
+Qed.
+
+(* ---- a function that vanishes beyond R1 can be integrated up to any Rm >= R1 ---- *)
+Lemma los_extend (f : R -> R) x R1 Rm V : 0 <= x -> R1 <= Rm ->
+  (forall s, R1 <= s -> f s = 0) ->
+  is_RInt (fun y => f (sqrt (x * x + y * y))) 0 (ylos x R1) V ->
+  is_RInt (fun y => f (sqrt (x * x + y * y))) 0 (ylos x Rm) V.
+Proof.
+  intros Hx HR Hz HI.
+  replace V with (V + (ylos x Rm - ylos x R1) * 0) by ring.
+  apply (is_RInt_Chasles_R _ 0 (ylos x R1) (ylos x Rm)); [exact HI|].
+  apply is_RInt_const_ext; [apply ylos_mono; auto|].
+  intros y Hy. apply Hz.
+  pose proof (ylos_nonneg x R1).
+  assert (Rmax R1 x < sqrt (x * x + y * y)) by (apply hyp_gt_ylos; lra).
+  pose proof (Rmax_l R1 x). lra.
 Qed.
